@@ -818,9 +818,17 @@ impl<T: Float> Unpaired<T> {
         let std_err_mean = // $\sqrt{s_a^2 / n_a + s_b^2 / n_b}$
             sum_s2_n.sqrt();
         let effective_dof = // $ \frac{ (s_a^a / n_a + s_b^2 / n_b)^2 }{ \frac{1}{n_a+1} \left(\frac{s_a^2}{n_a}\right)^2 + \frac{1}{n_b+1} \left(\frac{s_b^2}{n_b}\right)^2 } - 2$
-            sum_s2_n * sum_s2_n
-                / (sa2_na * sa2_na / (n_a + T::one())
-                    + sb2_nb * sb2_nb / (n_b + T::one())) - T::one() - T::one();
+            // (evaluated on the shares of each sample in the total, which lie in [0, 1]: squaring the
+            // variances themselves overflows or underflows for data of large or small magnitude,
+            // e.g. f32 data around 1e10, and the resulting NaN silently selected the normal quantile)
+            {
+                let share_a = sa2_na / sum_s2_n;
+                let share_b = sb2_nb / sum_s2_n;
+                T::one()
+                    / (share_a * share_a / (n_a + T::one()) + share_b * share_b / (n_b + T::one()))
+                    - T::one()
+                    - T::one()
+            };
 
         if !mean_difference.is_finite() || !std_err_mean.is_finite() {
             // NaN or infinite observations (or sums that overflow the float type)
